@@ -801,6 +801,10 @@ func (m *Machine) mapFind(mp *MapV, k Value, forWrite bool) *mapEntry {
 		return nil
 	}
 	m.mapAccess(mp, forWrite)
+	// indexed fast path: concrete key and no symbolic keys in the map
+	if r, ok := keyRepr(k); ok && mp.symKeys == 0 && mp.index != nil {
+		return mp.index[r]
+	}
 	// fast path: all concrete comparisons
 	var symIdx []int
 	var symCond []*Term
@@ -855,7 +859,17 @@ func (m *Machine) mapSet(mp *MapV, k, v Value) {
 		e.v = copyValue(v)
 		return
 	}
-	mp.entries = append(mp.entries, &mapEntry{k: copyValue(k), v: copyValue(v)})
+	ne := &mapEntry{k: copyValue(k), v: copyValue(v)}
+	if r, ok := keyRepr(k); ok {
+		ne.repr = r
+		if mp.index == nil {
+			mp.index = map[string]*mapEntry{}
+		}
+		mp.index[r] = ne
+	} else {
+		mp.symKeys++
+	}
+	mp.entries = append(mp.entries, ne)
 }
 
 func (m *Machine) mapDelete(mp *MapV, k Value) {
@@ -874,6 +888,11 @@ func (m *Machine) mapDelete(mp *MapV, k Value) {
 		}
 	}
 	mp.entries = out
+	if e.repr != "" {
+		delete(mp.index, e.repr)
+	} else {
+		mp.symKeys--
+	}
 }
 
 func (m *Machine) mapLen(mp *MapV) int {
